@@ -218,10 +218,35 @@ func (w *World) checkCloseOracles(v *Node) {
 		if r.EndAt >= r.Deadline {
 			continue
 		}
+		if strings.HasPrefix(r.Spec.Via, "relay") && tchannel.GetSystemErrorCode(r.Err) == tchannel.ErrCodeTimeout {
+			// a relay keeps its own clock for the call: the ttl it received (the caller's remaining
+			// time cut down to whole milliseconds) counted from when the request arrived. That can
+			// run out slightly before the caller's own deadline; it is still the call's timeout.
+			ttl := time.Duration(-1)
+			for _, m := range w.wireOr.reqByTag[r.Spec.Tag] {
+				if m.emitter == r.Spec.From.Name {
+					ttl = time.Duration(m.first.F.TTL) * time.Millisecond
+				}
+			}
+			if ttl >= 0 && r.EndAt >= r.TIn+ttl {
+				w.probe("C07.relay-ttl-ran-out-before-caller-deadline")
+				continue
+			}
+		}
+		if r.H.RespErr != nil && strings.Contains(r.H.RespErr.Error(), "buffer full") {
+			continue // the handler's error frame was dropped on a full (configured, tiny) send buffer: the call had lost its answer whether or not Close came
+		}
 		if strings.Contains(tchannel.GetSystemErrorMessage(r.Err), "-conn-slow") {
 			continue // a relay dropped the call because a (configured, tiny) send buffer was full: not Close's doing
 		}
 		if w.otherSideClosedFirst(r, v) {
+			continue
+		}
+		if r.Spec.From == v && w.errorFrameFromPeer(r, v) {
+			// the closing node's own outbound call was answered with an error frame the other
+			// party produced (e.g. a relay reporting that ITS connection to the destination
+			// failed): that is the call's result, delivered; Close did not cut it
+			w.probe("C07.outbound-call-ended-by-peer-error-frame")
 			continue
 		}
 		if mct := v.Opts.Conn.MaxCloseTime; mct > 0 && r.EndAt >= w.eventTime(v.closeCalledEv)+mct {
@@ -372,6 +397,32 @@ func (w *World) requestComplete(l *Link, dir int, first *TapFrame) bool {
 
 // otherSideClosedFirst: the call's connection was ended by the peer or a fault
 // rather than by v.
+// errorFrameFromPeer: did a node other than v write an error frame for v's call r on a
+// link of v, carrying the code the caller ended with?
+func (w *World) errorFrameFromPeer(r *CallRec, v *Node) bool {
+	var id uint32
+	var on *Link
+	for _, m := range w.wireOr.reqByTag[r.Spec.Tag] {
+		if m.emitter == v.Name {
+			id, on = m.first.F.ID, m.link
+		}
+	}
+	if on == nil {
+		return false
+	}
+	side := 0
+	if on.B.Owner == v.Name {
+		side = 1
+	}
+	for _, tf := range on.Frames[1-side] {
+		if tf.Err == nil && tf.F.Type == wire.TError && tf.F.ID == id && tf.REv != 0 &&
+			tchannel.SystemErrCode(tf.F.ErrCode) == tchannel.GetSystemErrorCode(r.Err) {
+			return true
+		}
+	}
+	return false
+}
+
 func (w *World) otherSideClosedFirst(r *CallRec, v *Node) bool {
 	for _, l := range w.Net.Links {
 		if l.A.Owner != v.Name && l.B.Owner != v.Name {
